@@ -251,6 +251,22 @@ fn main() {
         say!("   read_until(b'=') → {:?}; then read_to_string → {:?} (expected the remaining 47 header bytes)", String::from_utf8_lossy(&key), rest);
     }
 
+    say!("== V13 (C10) partial IDX + regrouped header lines: two ids share a dictionary index after a rewrite");
+    {
+        let text = "##fileformat=VCFv4.3\n##FORMAT=<ID=GT,Number=1,Type=String,Description=\"\">\n##INFO=<ID=U,Number=1,Type=Integer,Description=\"\",IDX=51>\n##INFO=<ID=A,Number=1,Type=Integer,Description=\"\">\n##FORMAT=<ID=Y2,Number=.,Type=Integer,Description=\"\",IDX=53>\n##INFO=<ID=B,Number=1,Type=Float,Description=\"\">\n##contig=<ID=sq0>\n#CHROM\tPOS\tID\tREF\tALT\tQUAL\tFILTER\tINFO\tFORMAT\ts0\ts1\nsq0\t1\t.\tA\t.\t.\t.\tB=0.5\tGT\t0/1\t0/1\n";
+        let mut r = vcf::io::Reader::new(text.as_bytes());
+        let hh = r.read_header().unwrap();
+        let recs: Vec<RecordBuf> = r.record_bufs(&hh).collect::<Result<_, _>>().unwrap();
+        let mut w = bcf::io::Writer::from(Vec::new());
+        match w.write_header(&hh) {
+            Ok(()) => {
+                w.write_variant_record(&hh, &recs[0]).unwrap();
+                say!("   rewritten; read back: {:?}", bcf_back(&w.into_inner()).map(|x| format!("{:?}", x.1.info())));
+            }
+            Err(e) => say!("   write_header → Err({e}) (fixed)"),
+        }
+    }
+
     say!("== V10 bcf::Record::end() on a telomeric record (POS 0) → todo!()");
     let mut r = rec(vec![], &["GT"], vec![vec![g01()], vec![g01()]]);
     *r.variant_start_mut() = None;
